@@ -2,7 +2,9 @@
 """try_patch.py <patch.diff> <prop> [more props]: apply a patch to a scratch copy of /repo and run the given checks on it (developer helper)."""
 import os, re, shutil, subprocess, sys, tempfile
 HERE = os.path.dirname(os.path.dirname(os.path.abspath(__file__)))
-patch, props = sys.argv[1], sys.argv[2:]
+VERBOSE = "-v" in sys.argv
+args = [a for a in sys.argv[1:] if a != "-v"]
+patch, props = args[0], args[1:]
 d = tempfile.mkdtemp(prefix="verif-try-", dir=os.environ.get("VERIF_SCRATCH", "/var/tmp"))
 try:
     subprocess.run(["rsync", "-a", "--exclude", "target", "--exclude", ".git", "--exclude", "docs", "--exclude", "notebooks", "/repo/", d + "/"], check=True)
@@ -12,6 +14,8 @@ try:
     for p in props:
         c = subprocess.run([os.path.join(HERE, "vcheck"), p, "--repo", d], capture_output=True, text=True)
         keys = re.findall(r"^REPORT (.*?) at \S+: (.*)$", c.stdout, re.M)
+        if VERBOSE:
+            print(c.stdout[-6000:])
         print("%s rc=%d %s" % (p, c.returncode, "; ".join("%s" % k for k, _ in keys[:4]) or (c.stderr[-300:] if c.returncode == 2 else "no report")))
 finally:
     shutil.rmtree(d, ignore_errors=True)
